@@ -395,8 +395,8 @@ func (c *MustacheParser) performSyntaxAnalysisForSection(variable string) ([]*Mu
 		result = append(result, resultToken)
 	}
 
-	token := c.getCurrentToken()
-	err = merr.NewMustacheError("", ErrCodeNotClosedSection, "Not closed section for variable '"+variable+"'", token.Line(), token.Column())
+	// All tokens are consumed here: there is no current token to take a position from
+	err = merr.NewMustacheError("", ErrCodeNotClosedSection, "Not closed section for variable '"+variable+"'", 0, 0)
 	return nil, err
 }
 
